@@ -14,8 +14,18 @@ pub const CHI: &[char] = &[
 /// 12-character core for the longer strings
 pub const CHI_CORE: &[char] = &['a', '"', '\\', '$', '`', '\n', 'é', '😀', 'u', '0', '>', ','];
 
+/// Strings that look like tokens of the formats (keywords, numbers, dates, refs, escapes, Hayson
+/// member names, display macros), strings with blanks at the ends, case-mapping oddities, a
+/// combining sequence, a BOM, an interior NUL.
+pub const WORDS: &[&str] = &[
+    "INF", "-INF", "NaN", "NA", "N", "M", "T", "F", "R", "true", "false", "null", "1", "-1", "1e5", "1kW", "2021-01-01", "12:00:00", "2021-01-01T00:00:00Z",
+    "2021-01-01T00:00:00Z UTC", "@a", "^a", "`u`", "C(1,2)", "Bin(\"x\")", "ver:\"3.0\"", "<<", ">>", "{a:1}", "[1]", "\"q\"", "_kind", "val", "$a", "${a}", "$<k>", "a b", " lead",
+    "trail ", "  ", "\u{c0}\u{c9}", "\u{1c6}", "\u{df}", "e\u{301}", "\u{feff}bom", "a\u{0}b", "\\u0041", "\\n", "a,b", "a\nb\r\nc", "x\u{10ffff}",
+];
+
 pub fn strings(tier: Tier) -> Vec<String> {
     let mut v = vec![String::new()];
+    v.extend(WORDS.iter().map(|w| w.to_string()));
     for &c in CHI {
         v.push(c.to_string());
     }
@@ -42,6 +52,7 @@ pub fn strings(tier: Tier) -> Vec<String> {
 /// Smaller string set for the non-Str positions in the quick tier (all singles + pairs over the core)
 pub fn strings_small() -> Vec<String> {
     let mut v = vec![String::new()];
+    v.extend(WORDS.iter().map(|w| w.to_string()));
     for &c in CHI {
         v.push(c.to_string());
     }
@@ -97,6 +108,18 @@ pub const NUMBERS: &[f64] = &[
     -1.8446744073709550e19,  // next above -2^64
     4294967296.0,            // 2^32
     -2147483649.0,
+    // shortest decimal forms with 16/17 digits, famous rounding cases, exponent thresholds of Display
+    0.30000000000000004,
+    1.2345678901234568e17,
+    1e22,
+    1e23,
+    9.999999999999999e22,
+    1e-5,
+    0.000001,
+    1e7,
+    123456789012345.67,
+    -1e-300,
+    1.5e300,
 ];
 
 pub const UNITS: &[&str] = &["kW", "°F", "%", "$", "m²", "kWh/m²", "gH₂O/kgAir", "W/ft²_irr", "Δ°C", "µs", "R$", "Ω", "inHg", "ft²"];
@@ -115,6 +138,9 @@ pub const TIMES: &[(u32, u32, u32, u32)] = &[
     (12, 0, 0, 1),
     (1, 2, 3, 120_000_000),
     (23, 59, 59, 999_999_999),
+    (0, 0, 0, 100),
+    (7, 8, 9, 123_400_000),
+    (7, 8, 9, 10),
 ];
 
 pub const ZONES: &[&str] = &[
@@ -153,7 +179,7 @@ pub const INSTANTS: &[i64] = &[
     1_709_251_199,     // 2024-02-29T23:59:59Z
     1_640_995_199,     // 2021-12-31T23:59:59Z
 ];
-pub const FRACTIONS: &[u32] = &[0, 123_000_000, 123_456_000, 123_456_789, 100_000_000, 1];
+pub const FRACTIONS: &[u32] = &[0, 123_000_000, 123_456_000, 123_456_789, 100_000_000, 1, 120_000_000, 123_400_000, 100, 10, 999_999_999, 500_000];
 
 pub const COORDS: &[f64] = &[0.0, -0.0, 37.545, 1e-7, -0.000001];
 
@@ -527,6 +553,8 @@ pub fn container_shards(tier: Tier) -> Vec<Shard> {
         }
     }
     out.push(Box::new(ver_variants));
+    out.push(Box::new(member_name_values));
+    out.push(Box::new(unit_named_keys));
     out
 }
 
@@ -583,7 +611,10 @@ fn pattern_string(n: usize, plain: bool) -> String {
     (0..n).map(|i| set[(i * 7 + i / set.len()) % set.len()]).collect()
 }
 
-pub const SIZE_LENGTHS: &[usize] = &[5, 8, 16, 31, 32, 33, 63, 64, 65, 127, 128, 129, 255, 256, 257, 1023, 1024, 1025, 4095, 4096, 4097, 8191, 8192, 8193, 65535, 65536, 65537];
+pub const SIZE_LENGTHS: &[usize] = &[
+    5, 6, 7, 8, 9, 10, 11, 12, 13, 14, 15, 16, 17, 18, 19, 20, 21, 22, 23, 24, 25, 26, 27, 28, 29, 30, 31, 32, 33, 34, 35, 36, 37, 38, 39, 40, 41, 42, 43, 44, 45, 46, 47, 48, 49, 50, 51, 52, 53, 54, 55, 56, 57,
+    58, 59, 60, 61, 62, 63, 64, 65, 66, 67, 68, 69, 70, 71, 72, 127, 128, 129, 255, 256, 257, 1023, 1024, 1025, 4095, 4096, 4097, 8191, 8192, 8193, 65535, 65536, 65537,
+];
 
 pub fn size_witnesses(tier: Tier) -> Vec<V> {
     let mut v = vec![];
@@ -600,8 +631,26 @@ pub fn size_witnesses(tier: Tier) -> Vec<V> {
             v.push(V::dict(&[(format!("t{}", pattern_string(n, true)).as_str(), V::Marker)]));
         }
     }
-    // wide containers
-    for &n in &[5usize, 16, 17, 64, 255, 256, 257, 1000, 4096] {
+    // a special character at every byte offset up to 72 (last character, and followed by one more)
+    for k in 0..=72usize {
+        for c in ['é', '€', '😀', '"', '\\', '$', '`', '\n'] {
+            for tail in ["", "b"] {
+                let t = format!("{}{c}{tail}", "a".repeat(k));
+                v.push(V::Str(t.clone()));
+                if k % 8 == 0 || k % 8 == 7 {
+                    if !c.is_control() {
+                        v.push(V::Uri(t.clone()));
+                    }
+                    v.push(V::Ref("r".into(), Some(t.clone())));
+                    v.push(V::XStr("Bin".into(), t));
+                }
+            }
+        }
+    }
+    // wide containers: every width up to 72, then around the powers of two
+    let mut widths: Vec<usize> = (5..=72).collect();
+    widths.extend([127, 128, 129, 255, 256, 257, 1000, 4096]);
+    for &n in &widths {
         if tier == Tier::Quick && n > 1000 {
             continue;
         }
@@ -678,5 +727,87 @@ pub fn size_witnesses_cached(tier: Tier) -> &'static Vec<V> {
     match tier {
         Tier::Quick => Q.get_or_init(|| size_witnesses(Tier::Quick)),
         Tier::Thorough => T.get_or_init(|| size_witnesses(Tier::Thorough)),
+    }
+}
+
+/// Tag names that are also member names of the Hayson encoding (or keywords of Zinc), as dict
+/// tags, grid columns, grid meta and column meta tags: a decoder that guesses the kind from the
+/// members present, or an encoder that confuses a tag with a member, shows here.
+pub const MEMBER_NAMES: &[&str] = &["val", "unit", "dis", "tz", "cols", "rows", "meta", "type", "lat", "lng", "ver", "name", "id", "kind", "empty", "na", "inf", "nan", "t", "f", "n", "m", "r"];
+
+pub fn member_name_values(sink: &mut dyn FnMut(V)) {
+    let vals: Vec<V> = vec![
+        V::str("x"),
+        V::num(1.0),
+        V::List(vec![]),
+        V::List(vec![V::str("a")]),
+        V::List(vec![V::dict(&[("name", V::str("a"))])]),
+        V::Dict(vec![]),
+        V::dict(&[("ver", V::str("3.0"))]),
+        V::Marker,
+    ];
+    let n = MEMBER_NAMES.len();
+    for i in 0..n {
+        for a in &vals {
+            let d = V::dict(&[(MEMBER_NAMES[i], a.clone())]);
+            sink(d.clone());
+            sink(V::List(vec![d.clone()]));
+            // as a column, with that tag in the row, in grid meta and in column meta
+            sink(V::Grid(Box::new(G {
+                ver: "3.0".into(),
+                // `ver` is the one reserved grid-meta name: both formats carry the grid version there
+                meta: if MEMBER_NAMES[i] == "ver" { None } else { Some(mk_tags(&[(MEMBER_NAMES[i], a.clone())])) },
+                cols: vec![Col { name: MEMBER_NAMES[i].to_string(), meta: Some(mk_tags(&[(MEMBER_NAMES[i], a.clone())])) }, Col { name: "zz".into(), meta: None }],
+                rows: vec![mk_tags(&[(MEMBER_NAMES[i], a.clone())]), mk_tags(&[("zz", d.clone())])],
+            })));
+            for j in (i + 1)..n {
+                for b in &vals {
+                    sink(V::dict(&[(MEMBER_NAMES[i], a.clone()), (MEMBER_NAMES[j], b.clone())]));
+                }
+            }
+        }
+    }
+    // the three grid members together, and the members of each scalar kind together
+    for a in &vals {
+        for b in &vals {
+            for c in &vals {
+                sink(V::dict(&[("meta", a.clone()), ("cols", b.clone()), ("rows", c.clone())]));
+            }
+            sink(V::dict(&[("val", a.clone()), ("unit", b.clone()), ("kind", V::str("number"))]));
+            sink(V::dict(&[("val", a.clone()), ("tz", b.clone())]));
+            sink(V::dict(&[("lat", a.clone()), ("lng", b.clone())]));
+            sink(V::dict(&[("type", a.clone()), ("val", b.clone())]));
+            sink(V::dict(&[("val", a.clone()), ("dis", b.clone())]));
+        }
+    }
+}
+
+/// Every unit identifier that is also a legal tag name (`m`, `s`, `min`, `day`, `ph`, `volt` …) as the
+/// tag that FOLLOWS a unit-less Number in a dict, in grid meta and in column meta (the
+/// blank-separated contexts of Zinc), and as a column name after a Number cell.
+pub fn unit_named_keys(sink: &mut dyn FnMut(V)) {
+    let mut ids: Vec<String> = vec![];
+    for u in &super::units_ref::db().units {
+        for id in &u.ids {
+            let mut cs = id.chars();
+            let ok = cs.next().map_or(false, |c| c.is_ascii_lowercase()) && cs.all(|c| c.is_ascii_alphanumeric() || c == '_');
+            if ok && id.as_str() > "a0" && !ids.contains(id) {
+                ids.push(id.clone());
+            }
+        }
+    }
+    ids.sort();
+    for id in &ids {
+        for follower in [V::Marker, V::num(7.0), V::str("s")] {
+            let tags = mk_tags(&[("a0", V::num(5.0)), (id.as_str(), follower.clone())]);
+            sink(V::Dict(tags.clone()));
+            sink(V::Grid(Box::new(G {
+                ver: "3.0".into(),
+                meta: Some(tags.clone()),
+                cols: vec![Col { name: "a0".into(), meta: Some(tags.clone()) }, Col { name: id.clone(), meta: None }],
+                rows: vec![tags.clone(), mk_tags(&[("a0", V::num(-1.5))])],
+            })));
+        }
+        sink(V::List(vec![V::num(5.0), V::Sym(id.clone()), V::num(1e21), V::Str(id.clone())]));
     }
 }
